@@ -457,6 +457,63 @@ pub fn sweep(tier: Tier) -> SweepResult {
         nontrivial += cases.len() as u64;
         stats.push(json!({"family": name, "cases": cases.len(), "pre_states": distinct_texts.len(), "diverging": fam_fail, "diverging_known": fam_known, "diverging_by_component": by_comp}));
     }
+    // the same property observed at the protocol level: diagnostics published after didChange
+    // equal those published for a fresh didOpen of the final text (real run(), real broker)
+    {
+        use crate::lsptext;
+        use crate::session::{Session, URI};
+        let cases: Vec<&Case> = fams
+            .iter()
+            .filter(|(n, _)| *n == "F2-token-soup" || *n == "F4-program-token-windows" || *n == "batches-of-two")
+            .flat_map(|(_, cs)| cs.iter().step_by(tier.pick(23, 5)))
+            .collect();
+        let res: Vec<(u64, Option<String>)> = cases
+            .par_iter()
+            .map(|c| {
+                let mut s = Session::new(true);
+                s.open(URI, &c.text);
+                let mut cur = c.text.clone();
+                for b in &c.batches {
+                    let mut evs = vec![];
+                    for (a, e, r) in b {
+                        let (l1, c1) = lsptext::position(&cur, *a);
+                        let (l2, c2) = lsptext::position(&cur, *e);
+                        evs.push(json!({"range": {"start": {"line": l1, "character": c1}, "end": {"line": l2, "character": c2}}, "text": r}));
+                        cur.replace_range(*a..*e, r);
+                    }
+                    s.change(URI, Value::Array(evs));
+                }
+                let o = s.run();
+                let mut f = Session::new(true);
+                f.open(URI, &cur);
+                let of = f.run();
+                let last = |o: &crate::session::Outcome| o.notifications("textDocument/publishDiagnostics").last().map(|n| n["params"]["diagnostics"].clone());
+                let bad = if o.error.is_some() || o.frame_error.is_some() {
+                    Some(format!("session failed: {:?} {:?}", o.error, o.frame_error))
+                } else if last(&o) != last(&of) {
+                    Some(format!("diagnostics after didChange {:?}
+after a fresh didOpen {:?}", last(&o), last(&of)))
+                } else {
+                    None
+                };
+                (c.id(), bad)
+            })
+            .collect();
+        let mut n_fail = 0u64;
+        let mut n_known = 0u64;
+        for (c, (id, bad)) in cases.iter().zip(res) {
+            evals.fetch_add(1, Ordering::Relaxed);
+            if let Some(d) = bad {
+                n_fail += 1;
+                let kn = known.contains(&id);
+                if kn {
+                    n_known += 1;
+                }
+                fails.push(Failure { key: if kn { "known-divergence".into() } else { "divergence:published-diagnostics".into() }, case: c.json(), detail: truncate(&d, 1500) });
+            }
+        }
+        stats.push(json!({"family": "published-diagnostics-after-didChange", "cases": cases.len(), "diverging": n_fail, "diverging_known": n_known}));
+    }
     let (hs, ht, hk, hf) = history_bfs(tier, &known);
     for f in &hf {
         // ids of history failures for the baseline
